@@ -44,6 +44,8 @@ def targets_of(model, header):
             for v in c['vfuncs']:
                 if v['first'] == 'self':
                     t.append(('%sClass::%s' % (nm, v['name']), 'vfunc', (c, v)))
+                    if re.search(r'\b%s_%s \(' % (us, v['name']), header):
+                        t.append(('%s_%s' % (us, v['name']), 'function', ('invoker', c, v)))     # the method that invokes the slot
         if c['ctor']:
             t.append((us + '_new', 'function', c))
         for k in range(c['methods']):
@@ -160,6 +162,11 @@ def gen_blocks(rng, targets, model):
                     anns.append('(%s %s)' % (a, b[g]))
         b['anns'] = anns
         L = ['/**', ' * %s:%s' % (ident, (' ' + ' '.join(anns)) if anns else '')]
+        if kind == 'record' and isinstance(extra, dict) and extra.get('vfuncs') and ident.endswith('Class'):
+            # the class structure's block may describe its slots
+            for v in extra['vfuncs']:
+                if rng.random() < 0.5:
+                    L.append(' * @%s: slot text of %s' % (v['name'], v['name']))
         if kind == 'signal':
             pass
         L.append(' *')
@@ -282,6 +289,37 @@ def judge(model, blocks, gir):
             if not ok:
                 out.append(('misattributed:%s->%s' % (b['kind'], n.tag), 'block "%s" (id %d, %s) landed on %s [%s] via %s' % (
                     b['ident'], bid, b['kind'], n.path(), ident, sorted(kinds))))
+    # a virtual method without a block of its own inherits from its invoker
+    by_block_ident = {b['ident']: b for b in blocks.values()}
+    for c in model['classes']:
+        if not c['class_struct']:
+            continue
+        us = 'foo_' + objgen.uscore(c['name'][3:])
+        for v in c['vfuncs']:
+            own = by_block_ident.get('%sClass::%s' % (c['name'], v['name']))
+            ib = by_block_ident.get('%s_%s' % (us, v['name']))
+            if v['first'] != 'self' or own is not None or ib is None:
+                continue
+            vn = [n for n in by_ident.get('%sClass::%s' % (c['name'], v['name']), []) if n.tag == 'virtual-method']
+            if len(vn) != 1 or vn[0].get('invoker') != v['name']:
+                continue
+            n = vn[0]
+            hits['vfunc-inherits-from-invoker'] += 1
+            got = tokens_of(n).get(ib['id'], set())
+            want = set()
+            if ib['doc']:
+                want.add('doc')
+            if ib['since']:
+                want.add('version')
+            if ib['deprecated']:
+                want |= {'doc-deprecated'} if ib.get('dep_text_only') else {'deprecated-version', 'doc-deprecated'}
+            if ib['attr']:
+                want.add('attribute')
+            if want - got:
+                out.append(('vfunc-inherit:%s' % sorted(want - got)[0], 'virtual method %sClass::%s has no block of its own; its invoker %s has block %d, but %s did not reach the <virtual-method> (found %s)' % (
+                    c['name'], v['name'], ib['ident'], ib['id'], sorted(want - got), sorted(got))))
+            if ib['stability'] and n.get('stability') != ib['stability']:
+                out.append(('vfunc-inherit:stability', 'virtual method %sClass::%s: stability=%r, its invoker\'s block says %r' % (c['name'], v['name'], n.get('stability'), ib['stability'])))
     for bid, b in blocks.items():
         if b['kind'] == 'decoy':
             hits['decoy'] += 1
